@@ -39,7 +39,8 @@ f_dump_prog (void)
     }
   else
     {
-      ob = sp->u.ob;
+      /* one argument, or more than three: only the first one is type-checked */
+      ob = (sp - st_num_arg + 1)->u.ob;
       d = 0;
       where = 0;
     }
